@@ -5,21 +5,24 @@ import multiprocessing
 import wire
 import sgrterm
 from curtsies.formatstring import FmtStr, fmtstr
-from props.common import reply_fmt, guarded
+from props.common import reply_fmt
 
 PROP = "C05"
 MODULES = ["Curtsies.Properties.C05"]
 RULE = ("grammar strings (text | ESC[ p1;..;pn m)*: exhaustive item lists of length <=3 over {text 'a', text '\\n', ESC[m, ESC[<p>m for "
         "each of the 25 supported codes}, every two-parameter sequence ESC[p;qm alone and after an active format, seeded random lists "
-        "of <=6 items with <=3 parameters and texts incl. \\n \\r \\t digits ';' '[' 'm'; round trip fmtstr(str(f)) for all 9*9*3^6 = 59049 "
+        "of <=6 items with <=3 parameters (each in a random spelling with up to 3 leading zeros) and texts incl. \\n \\r \\t digits "
+        "';' '[' 'm'; every code spelled 0p / 00p, pygments' ESC[39;49;00m / ESC[01;31m; a sample cross-checked against pyte; round trip fmtstr(str(f)) for all 9*9*3^6 = 59049 "
         "attribute dicts (explicit False included) on a four-run string with a newline, an unformatted run and an empty run, plus "
-        "random multi-run strings. non-trivial = at least one SGR sequence / at least one attribute")
+        "random multi-run strings incl. C0/C1 controls (0x7f 0x90 0x9c). non-trivial = at least one SGR sequence / at least one attribute")
 ASSUMPTIONS = ["texts are free of ESC and 0x9b (as in C01)",
                "the terminal is the SGR reader of Spec/Sgr.lean (harness mirror sgrterm.py, tied to the Lean spec on these cases every run)",
-               "C05_roundtrip is derived from C05_parse_is_terminal and C01's display theorem"]
+               "C05_roundtrip is derived from C05_parse_is_terminal and C01's display theorem",
+               "SGR parameters are within CPython's int(str) digit limit md (live value regenerated every run; C05_roundtrip_live)",
+               "pyte (no faint attribute) is a second opinion on the SGR reader for printable-ASCII grammar strings only"]
 
 CODES = [0, 1, 2, 3, 4, 5, 7] + list(range(30, 38)) + [39] + list(range(40, 48)) + [49]
-TEXTS = ["a", "\n", "b\r\nc", "\t", "12", ";", "[", "m", "0m", "x y", "é☃", "٣", "[31m"]
+TEXTS = ["a", "\n", "b\r\nc", "\t", "12", ";", "[", "m", "0m", "x y", "é☃", "٣", "[31m", "\x7f", "\x9c\x90"]
 
 
 def show(items):
@@ -35,6 +38,13 @@ def grammar_cases(ctx):
     for p, q in itertools.product(CODES, CODES):
         cases.append([("s", [p, q]), ("t", "x")])
         cases.append([("s", [7, 44]), ("t", "a"), ("s", [p, q]), ("t", "b")])
+    for p in CODES:                                   # other decimal spellings of the same code
+        for sp in ("0%d" % p, "00%d" % p, "0000%d" % p):
+            cases.append([("s", [sp]), ("t", "x")])
+            cases.append([("s", [1, 31, 44]), ("t", "a"), ("s", [sp]), ("t", "b")])
+    cases.append([("s", ["01", "31"]), ("t", "kw"), ("s", ["39", "49", "00"]), ("t", " x\n")])      # pygments
+    cases.append([("s", ["01"]), ("t", "a"), ("s", ["00"]), ("t", "b")])
+    cases.append([("s", ["0" * 4298 + "31"]), ("t", "long")])                                      # 4300 digits: int() accepts
     ctx.exhaustive.append("grammar: item lists <=3 over 28 items + all 625 two-parameter sequences in two contexts: %d" % len(cases))
     r = ctx.rng
     for _ in range(20000 if ctx.thorough else 3000):
@@ -43,7 +53,7 @@ def grammar_cases(ctx):
             if r.random() < 0.45:
                 items.append(("t", r.choice(TEXTS)))
             else:
-                items.append(("s", [r.choice(CODES) for _ in range(r.randint(0, 3))]))
+                items.append(("s", ["0" * r.choice([0, 0, 0, 1, 2, 3]) + str(r.choice(CODES)) for _ in range(r.randint(0, 3))]))
         cases.append(items)
     return cases
 
@@ -74,8 +84,23 @@ def roundtrip_cases(ctx):
     r = ctx.rng
     pool = list(itertools.islice(all_atts(), 0, None, 97))
     for _ in range(5000 if ctx.thorough else 1000):
-        cases.append([(r.choice(["", "a", "xy", "\n", "q\tr", "12;", "m[", "wide☃"]), dict(r.choice(pool))) for _ in range(r.randint(0, 5))])
+        cases.append([(r.choice(["", "a", "xy", "\n", "q\tr", "12;", "m[", "wide☃", "\x7f", "\x9c", "a\x90b", "\x00\x08"]), dict(r.choice(pool)))
+                      for _ in range(r.randint(0, 5))])
+    for t in ("\x7f", "\x9c", "\x90", "a\x9cb\x7f", "\x00", "\x07\x08\x0b\x0c\x0e\x0f"):
+        for a in pool[:40]:
+            cases.append([(t, dict(a)), ("z", {})])
     return cases
+
+
+def guarded(fn):
+    """run the real code; result/exception in the driver's reply syntax. A result the wire cannot express becomes a
+    reply no driver line can equal (a disagreement), never a crash of the run."""
+    try:
+        return fn()
+    except wire.Unencodable as e:
+        return "UNENCODABLE %r" % (e.args,)
+    except Exception as e:  # noqa: BLE001 - exception kinds are part of the compared behaviour
+        return wire.exc_kind(e)
 
 
 def impl_fromstr(s):
@@ -92,39 +117,100 @@ def impl_display(s):
     return "ok %s %s %s %s" % (wire.enc_chunks(chunks), wire.enc_atts(dict(final)) or ".", ",".join(ctls) or ".", mode)
 
 
+def eff_cells(f):
+    """per-character (char, effective attributes) of a real FmtStr, without going through the wire codec"""
+    out = []
+    for c in f.chunks:
+        key = tuple(sorted((k, v) for k, v in dict(c.atts).items() if v is not False))
+        out += [(ch, key) for ch in c.s]
+    return out
+
+
 def oracle_grammar(items):
     s = show(items)
     try:
         f = FmtStr.from_str(s)
         g = fmtstr(s)
+        got = eff_cells(f)
+        same = [(c.s, dict(c.atts)) for c in g.chunks] == [(c.s, dict(c.atts)) for c in f.chunks]
+        text = f.s
     except Exception as e:  # noqa: BLE001
         return "grammar: parsing raised %s" % type(e).__name__
     cells, final, ctls, mode = sgrterm.display(s)
     if ctls or mode != "ground":
         return "generator: the terminal sees something other than supported SGR in a grammar string (%r, %s)" % (ctls, mode)
-    got = wire.eff_cells_of_chunks(wire.fmt_chunks(f))
     if got != cells:
         return "grammar: parser and terminal differ: parser %r terminal %r" % (got, cells)
-    if wire.fmt_chunks(g) != wire.fmt_chunks(f):
+    if not same:
         return "grammar: fmtstr(s) differs from FmtStr.from_str(s)"
-    if f.s != "".join(v for k, v in items if k == "t"):
+    if text != "".join(v for k, v in items if k == "t"):
         return "grammar: text differs"
     return None
 
 
 def oracle_roundtrip(chunks):
-    f = wire.mk_fmt(chunks)
     try:
+        f = wire.mk_fmt(chunks)
         g = fmtstr(str(f))
+        got = eff_cells(g)
+        gs, fs = g.s, f.s
     except Exception as e:  # noqa: BLE001
         return "roundtrip: fmtstr(str(f)) raised %s" % type(e).__name__
     want = wire.eff_cells_of_chunks(chunks)
-    got = wire.eff_cells_of_chunks(wire.fmt_chunks(g))
     if got != want:
         return "roundtrip: fmtstr(str(f)) differs from f: got %r want %r" % (got, want)
-    if g.s != f.s:
+    if gs != fs or gs != "".join(t for t, _ in chunks):
         return "roundtrip: text differs"
     return None
+
+
+PYTE_COLORS = ["black", "red", "green", "brown", "blue", "magenta", "cyan", "white"]
+
+
+def pyte_cells(s):
+    import pyte
+    screen = pyte.Screen(400, 3)
+    stream = pyte.Stream(screen)
+    stream.feed(s)
+    n = screen.cursor.x
+    out = []
+    for x in range(n):
+        ch = screen.buffer[0][x]
+        st = {}
+        if ch.fg != "default":
+            st["fg"] = 30 + PYTE_COLORS.index(ch.fg)
+        if ch.bg != "default":
+            st["bg"] = 40 + PYTE_COLORS.index(ch.bg)
+        for k, attr in (("bold", "bold"), ("italic", "italics"), ("underline", "underscore"), ("blink", "blink"), ("invert", "reverse")):
+            if getattr(ch, attr):
+                st[k] = True
+        out.append((ch.data, tuple(sorted(st.items()))))
+    return out
+
+
+def pyte_crosscheck(ctx, gc):
+    """second opinion on the oracle's terminal (sgrterm.display): the vendored pyte emulator on grammar strings with
+    printable ASCII text and without code 2 (pyte has no faint)"""
+    name = "C05/pyte-vs-sgrterm"
+    t = ctx.ties.setdefault(name, dict(compared=0, disagreements=0))
+    picked = 0
+    for i, c in enumerate(gc):
+        if any(k == "s" and any(int(p) == 2 for p in v) for k, v in c):
+            continue
+        if not all(k == "s" or (v.isascii() and v.isprintable()) for k, v in c):
+            continue
+        if not any(k == "s" for k, _ in c) or (i % 7 and len(c) < 4):
+            continue
+        picked += 1
+        s = show(c)
+        a = pyte_cells(s)
+        b = sgrterm.display(s)[0]
+        t["compared"] += 1
+        if a != b:
+            t["disagreements"] += 1
+            if len(ctx.disagreements) < 20:
+                ctx.disagreements.append((name, c, repr(b), repr(a)))
+    ctx.note("pyte cross-check of the SGR reader on %d grammar strings" % picked)
 
 
 def footprint(case, what):
@@ -156,6 +242,7 @@ def check(ctx):
         ctx.count(c, nontrivial=any(k == "s" for k, _ in c), tag="grammar")
         if w:
             ctx.violation(w, c, footprint(c, w))
+    pyte_crosscheck(ctx, gc)
     rc = roundtrip_cases(ctx)
     res2 = pmap(_work_roundtrip, rc)
     idx2 = {id(c): i for i, c in enumerate(rc)}
